@@ -17,6 +17,8 @@ MODEL_VO = ["theories/C13/Corr.vo"]
 # fail-loudly lemmas) are closed under the global context; the theorems over the reals report the standard library's
 # real-number axioms, and - through Coq-Interval's BigZ floating-point computations - the kernel's primitive 63-bit
 # integers and their specification (prefix match).
+# coqchk re-checks Interval.Tactic's functor instances without the VM for hours: the installed library is taken as checked
+COQCHK_ADMIT = ["Interval.Tactic"]
 ALLOWED_AXIOMS = ["ClassicalDedekindReals.sig_forall_dec", "ClassicalDedekindReals.sig_not_dec", "Classical_Prop.classic",
                   "FunctionalExtensionality.functional_extensionality_dep", "PrimInt63.", "Uint63."]
 
